@@ -79,7 +79,7 @@ CLAIMED = {
    note="Trusted base: the comparison code in sim/e2/c08.go. Payload generation at package level is plain input generation; the simulation contributes the stored-byte faults and the restart path.",
    ref="DESIGN.md section 4 C08"),
  "C01": dict(level="exploration", engine="E1-history-simulator",
-   text="Seeded deterministic simulation of write/restart/read histories (all dataset types x ranks x layouts x superblock versions x data classes) against an executable reference model; every failing run is minimised and replayed twice in fresh processes before it is reported.",
+   text="Seeded deterministic simulation of write/restart/read histories (all dataset types x ranks x layouts x superblock versions x data classes) against an executable reference model; what is compared after the restart is every read the library offers for the type: Read/ReadStrings/ReadCompound and, for numeric datasets, blocks through ReadSlice (centre block, tail block, whole extent; datasets with several hundred chunks included); every failing run is minimised and replayed twice in fresh processes before it is reported.",
    technique="deterministic simulation: seeded write/restart/read histories vs reference model over a simulated disk",
    ref="DESIGN.md section 4 C01"),
 }
